@@ -79,7 +79,10 @@ static int exec_line(char *line) {
     unsigned char *raw = malloc(cap + 2 * GUARD);
     memset(raw, GUARDBYTE, cap + 2 * GUARD);
     memset(raw + GUARD, UNTOUCHED, cap);
-    int ret = get_snprintf(fmt)(cap ? (char *) raw + GUARD : NULL, cap, b);
+    /* size 0: the pointer is NOT NULL (a caller appending to a buffer whose room reached 0): nothing may be written; the
+     * documented (NULL, 0) form must return the same length */
+    int ret = get_snprintf(fmt)((char *) raw + GUARD, cap, b);
+    if (!cap && get_snprintf(fmt)(NULL, 0, b) != ret) ret = -7777;
     int guard_ok = 1;
     for (size_t i = 0; i < GUARD; i++) if (raw[i] != GUARDBYTE || raw[GUARD + cap + i] != GUARDBYTE) guard_ok = 0;
     fprintf(fout, "ret %d buf ", ret);
